@@ -48,6 +48,24 @@ example : c2b "aé日b".toList 3 = some 6 := by decide
 example : b2c "aé日b".toList 4 = some 2 := by decide       -- inside `日` (bytes 3..5)
 example : isAscii "aé".toList = false := by decide
 
+/-! ## byte deltas of a source put (`_params_offset`) -/
+
+/-- `_params_offset`, one-line put: the column delta is (bytes of the new text up to the end of the put, measured on the
+START line: prefix before the span ++ put text) minus (bytes up to the end of the replaced span on the END line).  The
+two prefixes live on different lines when the replaced span covers several lines; each is measured in bytes of its own
+line. -/
+theorem paramsOffset_dcol_single (lines : List Line) (p : Line) (ln col endLn endCol : Nat) :
+    (paramsOffsetC lines [p] ln col endLn endCol).2.2.2 =
+      ((byteLen ((lines.getD ln []).take col ++ p) : Nat) : Int) - ((byteLen ((lines.getD endLn []).take endCol) : Nat) : Int) := by
+  simp only [paramsOffsetC, c2bRaw, byteLen_append, List.length_cons, List.length_nil, List.getLastD]
+  simp
+  omega
+
+/-- the position handed to `_offset` is the BYTE column of the end of the replaced span on its own line -/
+theorem paramsOffset_col (lines put : List Line) (ln col endLn endCol : Nat) :
+    (paramsOffsetC lines put ln col endLn endCol).2.1 = -((c2bRaw (lines.getD endLn []) endCol : Nat) : Int) := rfl
+
+example : paramsOffsetC ["r = [\"ééé\", [1,".toList, "  2], tail, other]".toList] ["X".toList] 0 12 1 4 = (1, -4, -1, 12) := by decide
 /-! ## the fragment scanners -/
 
 /-- One regex match, plain pattern (`_re_next_frag`): it succeeds exactly when the window `[pos, endpos)` (clipped
